@@ -279,11 +279,14 @@ class AggregatesOnChunk(Case):
 
     def __init__(self, kind):
         self.kind = kind
-        self.tier = "thorough" if kind == "gene" else "quick"  # the gene variant forks ~330 paths
-        if kind == "gene":
+        self.tier = "thorough" if kind == "gene" else "quick"  # the two-isoform gene variant forks ~330 paths
+        if kind == "gene1":
+            self.allow_uncovered = ("raise:ValidationException",)  # a single child cannot carry two primary flags
+        if kind in ("gene", "gene1"):
             self.func = GENE + ".get_merged_transcript"
             self.module = "gene.gene"
-            self.name = "GeneInterval aggregates[cc, children and gene on a sequence chunk with any window]"
+            self.name = ("GeneInterval aggregates[cc, children and gene on a sequence chunk with any window]" if kind == "gene"
+                         else "GeneInterval aggregates[one coding isoform, child and gene on a sequence chunk with any window]")
             self.call = ("(lambda g: (g.start, g.end, g.get_merged_transcript().chromosome_location, "
                          "g.get_merged_cds().chromosome_location))(GeneInterval(kids, gene_type=Biotype.protein_coding, "
                          "parent_or_seq_chunk_parent=cp))")
@@ -306,16 +309,16 @@ class AggregatesOnChunk(Case):
         }
 
     def inputs(self, S):
-        pattern = (True, True) if self.kind == "gene" else (False, False)
-        kids, info, strand = children(S, pattern, "tx" if self.kind == "gene" else "feature", chunk=True)
+        pattern = {"gene": (True, True), "gene1": (True,)}.get(self.kind, (False, False))
+        kids, info, strand = children(S, pattern, "tx" if self.kind in ("gene", "gene1") else "feature", chunk=True)
         ns = NS(kids=kids, info=info, p=S.int("p"), cp=S._last_chunk[0], cs=S._last_chunk[1], ce=S._last_chunk[2])
-        if self.kind == "gene":
+        if self.kind in ("gene", "gene1"):
             ns.GeneInterval = S.cls(GENE)
         return ns
 
     def samples(self, rng):
         from .c04_liftover import sample_chunk
-        d = sample_children(rng, (True, True) if self.kind == "gene" else (False, False))
+        d = sample_children(rng, {"gene": (True, True), "gene1": (True,)}.get(self.kind, (False, False)))
         d["p"] = rng.randint(0, 12)
         d.update(sample_chunk(rng, hi=6))
         if d["chunk_end"] == d["chunk_start"]:
@@ -438,7 +441,7 @@ def _chrom_base(i, p):
     return cb(i, p)
 
 
-CASES = [GenePrimarySequences(), ParentlessCollectionKeepsChildren('gene'), ParentlessCollectionKeepsChildren('features'), AggregatesOnChunk("gene"), AggregatesOnChunk("features"), FindPrimary((True, True)), FindPrimary((True, False)), FindPrimary((False, False)),
+CASES = [GenePrimarySequences(), ParentlessCollectionKeepsChildren('gene'), ParentlessCollectionKeepsChildren('features'), AggregatesOnChunk("gene"), AggregatesOnChunk("gene1"), AggregatesOnChunk("features"), FindPrimary((True, True)), FindPrimary((True, False)), FindPrimary((False, False)),
          FindPrimary((True, True, True)), FindPrimary((False, False), "feature"),
          GeneAggregates((True, True)), GeneAggregates((True, False)), FeatureCollectionAggregates(),
          FindPrimary((True, True), chunk=True), FindPrimary((True, False), chunk=True), SizeKeys(1), SizeKeys(2)]
